@@ -42,7 +42,7 @@ def generate(seed, tier):
     for (P, Q) in [(1, 1), (1, 2), (2, 1), (2, 2)]:
         (tn, tk), (inn, ik) = ty(), it()
         add('C19|axes2d|%s|%s|5x6|%dx%d' % (tk, ik, P, Q), 'VP_CASE("@KEY@", vp::c19::axes2d<%s,5,6,%d,%d,%s>);' % (tn, P, Q, inn))
-    for (M, N, P, fs) in [(5, 6, 2, (1, 4, 1)), (8, 9, 3, (0, -1, 2)), (4, 17, 4, (2, -1, 1))] + ([] if quick else [(7, 7, 7, (-4, -1, 1)), (3, 33, 2, (1, 33, 16))]):
+    for (M, N, P, fs) in [(5, 6, 2, (1, 4, 1)), (8, 9, 3, (0, -1, 2)), (4, 17, 4, (2, -1, 1))] + ([] if quick else [(7, 7, 7, (-4, -1, 1)), (3, 33, 2, (0, -1, 2))]):
         (tn, tk), (inn, ik) = ty(), it()
         add('C19|mixed2d|%s|%s|%dx%d|P=%d|%d:%d:%d' % ((tk, ik, M, N, P) + fs), 'VP_CASE("@KEY@", vp::c19::mixed2d<%s,%d,%d,%d,%s,%d,%d,%d>);' % ((tn, M, N, P, inn) + fs))
     for (dims, idims) in [((3, 4), (2, 3)), ((5, 6), (4, 2)), ((2, 3, 4), (3, 2, 2))] + ([] if quick else [((8, 9), (5, 7)), ((2, 3, 2, 2), (2, 2, 2, 2))]):
